@@ -1386,7 +1386,9 @@ def rule_r17(ctx, prog, rule="R17"):
     ctx.ob(rule, "EquiSpaced/n_bins/compares-with-max", et["cmp_against_max"] and et["cmp_op"] == "le", wn,
            "counting continues while edge <= self.max (so the last edge is strictly above the maximum)" if et["cmp_against_max"] else
            "loop condition does not compare the edge with self.max", what="bin counting not bounded by the maximum")
-    ctx.ob(rule, "EquiSpaced/n_bins/counter", et["counter_step"] == ("add", ("sym", "CTR"), ("num", 1)) and et["counter_init"][0] == "num",
+    # the count is the least k >= 1 whose edge lies above the maximum: the counter starts at 0 or 1 (edge(0) = min <= max, so both
+    # give the same count); a larger start can overshoot by a whole bin
+    ctx.ob(rule, "EquiSpaced/n_bins/counter", et["counter_step"] == ("add", ("sym", "CTR"), ("num", 1)) and et["counter_init"] in (("num", 0), ("num", 1)),
            wn, "returned counter starts at %s and is incremented by 1 per iteration" % show(et["counter_init"]),
            what="bin counter is not a unit-step counter")
     # build: indices 0..=n_bins(self)
@@ -2003,9 +2005,12 @@ def rule_c18_quantiles(ctx, prog, rule="R13"):
     if ok:
         c = lane[0]
         # needs_lower/needs_higher/lower_index/higher_index argument agreement between the collecting loop and the lookup
-        def sig(b0):
+        def sig(b0, exclude=None):
             out = set()
             group = [b0] + [x for x in prog.bodies.values() if x.is_closure and x.key.startswith(b0.key + "::")]
+            if exclude is not None:
+                # the collecting side is everything of the routine that is *not* the per-lane lookup closure
+                group = [x for x in group if not (x.key == exclude or x.key.startswith(exclude + "::"))]
             for b, bb, t in [(g, bb, t) for g in group for bb, t in g.calls()]:
                 nm = callee_name(t)
                 if nm in ("needs_lower", "needs_higher", "lower_index", "higher_index"):
@@ -2022,7 +2027,7 @@ def rule_c18_quantiles(ctx, prog, rule="R13"):
                             args.append(fmt(canon_expr(prog, pb, pe))[:60])
                     out.add((nm, tuple(args)))
             return out
-        s_collect, s_lookup = sig(inner), sig(c)
+        s_collect, s_lookup = sig(inner, exclude=c.key), sig(c)
         ok = s_collect == s_lookup and len(s_collect) == 4
         if not ok and not s_lookup and len(s_collect) == 4:
             pv = lane_uses_position_vector(prog, inner, c)
@@ -2339,6 +2344,32 @@ def fn_term(prog, body, names, depth=0, pick_field=None, kernel_cls=None):
     return K.term(r)
 
 
+def rule_quantiles_fill_value(ctx, prog):
+    inner = prog.find("QuantileExt<A, S, D>>::quantiles_axis_mut::quantiles_axis_mut")
+    # the fill value `data.first().unwrap()` is evaluated only once the result (hence the data) is known to be non-empty: a
+    # zero-length *other* axis must yield the empty result (C17: Ok, never a panic), not reach this unwrap
+    from .rules_unsafe import bool_branch_dominating
+    tbi = prog.tracked(inner)
+    okf, fdetail, nf = True, "no first().unwrap() on the data", 0
+    for bb, t in tbi.calls():
+        if callee_name(t) in ("unwrap", "expect"):
+            a0 = ds(tbi.call_arg_exprs(bb)[0])
+            if isinstance(a0, tuple) and a0[0] == "call" and a0[1] == "first" and ds(a0[3][0])[:2] == ("param", 1):
+                nf += 1
+
+                def size_zero(e):
+                    e = ds(e)
+                    if isinstance(e, tuple) and e[0] == "binop" and e[1] == "Eq":
+                        l_, r_ = ds(e[2]), ds(e[3])
+                        return isinstance(l_, tuple) and l_[0] == "call" and l_[1] in ("size", "len", "is_empty") and r_ == ("const", "usize", 0)
+                    return isinstance(e, tuple) and e[0] == "call" and e[1] == "is_empty"
+                if not any(x_[1] is False for x_ in bool_branch_dominating(tbi, bb, size_zero)):
+                    okf, fdetail = False, "data.first().unwrap() at %s is reached without the result shape being known non-empty" % tbi.where(bb, "term")
+                else:
+                    fdetail = "data.first().unwrap() only after `results_shape.size() == 0` was excluded"
+    ctx.ob("R30", "quantiles_axis_mut/fill-value-after-emptiness-check", okf, inner.where(), fdetail, what="empty result surfaces as a panic")
+
+
 def rule_c01_interpolation(ctx, prog, rule="R19"):
     rec = Recorder(ctx, rule)
     q, n = ("sym", "q"), ("sym", "len")
@@ -2483,6 +2514,7 @@ def rule_c01_interpolation(ctx, prog, rule="R19"):
     from .rules_result import rule_filled_array_returned
     rule_filled_array_returned(ctx, prog.tracked(inner), "quantiles_axis_mut/result-returned-unchanged", rule="R30",
                                what="bulk quantile result altered after the lanes were filled")
+    rule_quantiles_fill_value(ctx, prog)
     # result shape: raw_dim(data) with [axis.index()] := qs.len()
     tb = prog.tracked(inner)
     ok = False
